@@ -615,6 +615,22 @@ func evalCall(e *Expr, env *Env) (Val, error) {
 			return Val{}, dom("empty list()")
 		}
 		k := args[0].K
+		if k == 'T' {
+			// a list of text; text that reads as a number is left undefined
+			// (the engine's list() types its elements by their reading)
+			for _, a := range args {
+				if a.K != 'T' {
+					return Val{}, dom("list() of mixed kinds")
+				}
+				if _, ok := ParseFloatText(a.T); ok {
+					return Val{}, dom("list() of numeric text")
+				}
+				if _, err := strconv.ParseFloat(strings.TrimSpace(a.T), 64); err == nil {
+					return Val{}, dom("list() of text some number syntax accepts (+5, 1e3, inf ...)")
+				}
+			}
+			return List(append([]Val(nil), args...)), nil
+		}
 		if k != 'I' && k != 'F' {
 			return Val{}, dom("list() of non-numbers")
 		}
